@@ -15,7 +15,7 @@ import Mathlib.Data.Matrix.Mul
 
 open Finset BigOperators
 
-namespace GT
+namespace GT.Targets
 
 variable {K : Type*} [Field K] {n : ℕ}
 
@@ -111,4 +111,4 @@ def polyAngleSinSq (g S : K) : K := (1 - g) / (1 + g * S)
 `S = sinh² r` -/
 def polyAngleCos (g S : K) : K := (g * S - 1 + 2 * g) / (1 + g * S)
 
-end GT
+end GT.Targets
